@@ -39,7 +39,7 @@ CHECKS = {
          "DESIGN.md section 3, C13"),
  "C14": ("E5 permexplore", "model_checking",
          "stateless exploration of all hash-iteration-order schedules within a deviation bound, through an order-controllable HashMap/HashSet seam, on the real generate",
-         "Every iteration over a hash collection is a choice point (the seam offers no un-instrumented way to iterate). For each input: identity schedule twice (must agree), then every alternative at each choice point (all n! orders up to a cap, else adjacent transpositions + reversal + rotations), deviation bound 1 (quick) / 2 (thorough); a replayed prefix that passes different choice points is a machinery error. Corpus: repository files incl. should-fail, grammars with conflicts in several states, G(2,2,3,2), and all 1.1e6 invalid files of <=3 items with >=2 simultaneous violations. Oracle: byte-identical RustSrc / identical Debug of the error. Histories: generate as an operation on the state of the process - every history of 2 calls over a 163-text alphabet (every helper name in every upper-case role, uniquifier chains, one text per error kind) and every history of 3 calls over 10 of them, each in its own fresh child process, every call compared with the same text called alone in a fresh process (28 000 processes quick). A free-running pass with the real RandomState in 8 child processes that visit the corpus in different orders and under different environments (variables incl. every one kiki's source reads, working directory) is supplementary sampling.",
+         "Every iteration over a hash collection is a choice point (the seam offers no un-instrumented way to iterate). For each input: identity schedule twice (must agree), then every alternative at each choice point (all n! orders up to a cap, else adjacent transpositions + reversal + rotations), deviation bound 1 (quick) / 2 (thorough); a replayed prefix that passes different choice points is a machinery error. Corpus: repository files incl. should-fail, grammars with conflicts in several states, G(2,2,3,2), and all 1.1e6 invalid files of <=3 items with >=2 simultaneous violations. Oracle: byte-identical RustSrc / identical Debug of the error. Histories: generate as an operation on the state of the process - every history of 2 calls over a 163-text alphabet (every helper name in every upper-case role, uniquifier chains, one text per error kind) and every history of 3 calls over 10 of them, each in its own fresh child process, every call compared with the same text called alone in a fresh process (28 000 processes quick). A free-running pass with the real RandomState in 8 child processes that visit the corpus in different orders and under different environments (variables incl. every one kiki's source reads, working directory) enumerates 4 environment classes x 2 visiting orders; only its hash keys are sampled - a difference it finds is reported, its silence is not the verdict on hash order.",
          "hash collections reach kiki only through the cfg-switched imports (a source scan reports bypasses in the evidence).",
          "DESIGN.md section 3, C14"),
  "C15": ("E4 textsweep", "exploration",
